@@ -228,6 +228,23 @@ theorem legacy_all_commits (tx tx' : Tx) (hwf : tx.wf) (hwf' : tx'.wf) (idx ht :
     sc = sc' :=
   LegacyCommit.legacy_all_commits tx tx' hwf hwf' idx ht sc sc' hsc hsc' hidx hidx' hall hacp h
 
+/-- SINGLE under the legacy algorithm commits to the output at the signed index … -/
+theorem legacy_single_commits (tx tx' : Tx) (hwf : tx.wf) (hwf' : tx'.wf) (idx ht : Nat) (sc sc' : Bytes)
+    (hsc : sc.length < 2 ^ 64) (hsc' : sc'.length < 2 ^ 64)
+    (hidx : idx < tx.inputs.length) (hidx' : idx < tx'.inputs.length) (hs : ht &&& 0x1f = 3)
+    (h : satoshiSpec tx idx ht sc = satoshiSpec tx' idx ht sc') :
+    tx.outputs[idx]? = tx'.outputs[idx]? :=
+  LegacyCommit.legacy_single_commits tx tx' hwf hwf' idx ht sc sc' hsc hsc' hidx hidx' hs h
+
+/-- … and to no other output; NONE commits to no output at all: changing parts the hash type does not commit to leaves
+    the preimage (hence the signature's validity) unchanged. -/
+theorem legacy_uncommitted_outputs_free (tx : Tx) (outs : List Output) (idx ht : Nat) (sc : Bytes) :
+    (ht &&& 0x1f = 3 → outs[idx]? = tx.outputs[idx]? →
+      satoshiSpec { tx with outputs := outs } idx ht sc = satoshiSpec tx idx ht sc) ∧
+    (ht &&& 0x1f = 2 → satoshiSpec { tx with outputs := outs } idx ht sc = satoshiSpec tx idx ht sc) :=
+  ⟨fun hs hsame => LegacyCommit.legacy_single_other_outputs_free tx outs idx ht sc hs hsame,
+   fun hn => LegacyCommit.legacy_none_outputs_free tx outs idx ht sc hn⟩
+
 /-- the hypotheses are satisfiable, and the modified transaction is what the text says (one input, ALL) -/
 example :
     let tx : Tx := { version := 1, inputs := [{ prevTxID := List.replicate 32 7, vout := 0, unlocking := some [0x51], sequence := 5 }],
